@@ -540,6 +540,7 @@ def strip_chain(e: ast.AST) -> Chain:
 # folding of *constant* integer expressions (no names other than the stat module's permission constants)
 
 STAT_CONSTS = {'S_IXUSR': 0o100, 'S_IXGRP': 0o010, 'S_IXOTH': 0o001, 'S_IRWXU': 0o700, 'S_IRWXG': 0o070, 'S_IRWXO': 0o007,
+               'S_ISUID': 0o4000, 'S_ISGID': 0o2000, 'S_ISVTX': 0o1000,
                'S_IRUSR': 0o400, 'S_IWUSR': 0o200, 'S_IRGRP': 0o040, 'S_IWGRP': 0o020, 'S_IROTH': 0o004, 'S_IWOTH': 0o002}
 
 
